@@ -393,7 +393,7 @@ theorem pushIntoStreamJoinKey_local (db : Db) : LocalOK db pushIntoStreamJoinKey
       · simp only [Option.some.injEq, Prod.mk.injEq] at h
         obtain ⟨rfl, _⟩ := h
         simp only [Good, UnGood, BinGood, schema_bin] at hg
-        obtain ⟨⟨hgl, hgr, hs2, hlk, hrk, hlen⟩, hs, he⟩ := hg
+        obtain ⟨hnd, ⟨_, hgl, hgr, hs2, hlk, hrk, hlen⟩, hs, he⟩ := hg
         subst hs
         rw [hs2] at he
         have hfp : ∀ c ∈ splitByAnd e, ExprOK ((l.fields ++ r.fields) ++ outer) c := fun c hc => exprOK_conjunct he hc
@@ -410,7 +410,7 @@ theorem pushIntoStreamJoinKey_local (db : Db) : LocalOK db pushIntoStreamJoinKey
           · exact hk2 x hx
         have hgout : Good db (.bin s (.sjoin (lk ++ leftKeys cls) (rk ++ rightKeys cls)) l r) outer := by
           simp only [Good, BinGood]
-          exact ⟨hgl, hgr, hs2, hlk', hrk', by simp [hlen, hk3]⟩
+          exact ⟨hnd, hgl, hgr, hs2, hlk', hrk', by simp [hlen, hk3]⟩
         have hst : ∀ c ∈ stays cls,
             ExprOK ((Plan.bin s (.sjoin (lk ++ leftKeys cls) (rk ++ rightKeys cls)) l r).fields ++ outer) c := by
           intro c hc
